@@ -31,6 +31,11 @@ def variant_edge_targets(body, src_locals, variant):
             rest = [n for v, n in variants.items() if v not in [x for x, _ in ts["ts"]]]
             if rest == [variant]:
                 tg.append(ts["o"])
+            # a target shared with another variant's edge does not witness `variant`
+            other = set(tgt for val, tgt in ts["ts"] if variants.get(val) != variant)
+            if rest and rest != [variant]:
+                other.add(ts["o"])
+            tg = [t0 for t0 in tg if t0 not in other]
             cands.setdefault((pl_local(p), tuple(pl_projs(p))), []).append((sb, tg))
     out = set()
     for key, lst in cands.items():
